@@ -7,7 +7,7 @@ of version_history.py:VersionParserIterator.next and interface.carve_table.
 The model follows the tree after the `fix:` commits 6eca1fa (last_offset), 0b2b453 (hash strings are
 bytes), 1323ad4 (freeblock file offset counts from the content), 4d9b308 (append_byte_strings accepts
 bytearray), 1c3b10a (decode_varint_in_reverse raises), 0d6a473 (journal with fewer than two page
-records), 56bb962 (digest over the record's own bytes).  With these the Python type of the data object
+records), 56bb962 (digest over the record's own bytes), a784e20 (high-bit guard in front of decode_varint).  With these the Python type of the data object
 (bytes / bytearray) and of the per-column hash strings no longer decides anything and is not modelled.
 * `get_content_size` of an even serial type is a float with an integral value; every use either
   compares it, adds it or passes it through `int()`, so the model carries the integer.
@@ -140,8 +140,17 @@ def fromFreeblockSize (fc : List Int) (fbSize : Int) (sdSize sdcs : Nat) : CM (O
                          truncatedFirst := true })
   | _ => pure none
 
+/-- `if ord(data[at:at+1]) & 0x80: raise CellCarvingError()` — the guard of fix a784e20 in front of
+`decode_varint(data, at)`: the start of a varint of several bytes is rejected before it is decoded
+(it could run past the end of the data).  `ord(b'')` past the end is a TypeError. -/
+def precedingByteGuard (data : Buf) (at_ : Nat) : CM Unit :=
+  if at_ < data.size then
+    (if data.rd at_ &&& 0x80 ≠ 0 then .error .cellCarving else .ok ())
+  else .error (.py .typeError)
+
 /-- `decode_varint(data, at)` must be one byte long and its class must be listed -/
 def fromPrecedingByte (fc : List Int) (data : Buf) (at_ : Nat) : CM (Option PreCol) := do
+  precedingByteGuard data at_
   let (st, n) ← liftPy (decodeVarint data at_)
   if n ≠ 1 then .error .cellCarving
   else if serialTypeSignature st ∈ fc then do
@@ -167,6 +176,7 @@ def reconstructFirst (i : RecIn) (sdSize sdcs : Nat) : CM (Option PreCol) :=
       match i.firstCol with
       | some fc => fromPrecedingByte fc i.data 0
       | none => do
+        precedingByteGuard i.data 0
         let (_, n) ← liftPy (decodeVarint i.data 0)
         if n ≠ 1 then .error .cellCarving else .error (.py .typeError)
     | .allocated => .error .cellCarving
